@@ -909,3 +909,101 @@ def rf110(run):
     if n < 40:
         raise F.AnalysisBroken('commutative_insn_code: only %d mapped opcodes' % n)
     return n
+
+
+# ---------------------------------------------------------------------------------------------
+# RF124: lazy basic-block generation: one address stands for a label, for good
+# ---------------------------------------------------------------------------------------------
+
+def rf124(run):
+    rule = 'RF124'
+    run.rule(rule, 'lazy basic-block generation: label values reach the program through lref data (filled by create_bb_stubs, possibly as a '
+                   'difference of two labels) and through LADDR (bb_version_generator).  Both take the value from the same field of the '
+                   'block version, and that field is assigned in one function only (get_bb_version, the thunk).  A field that is later '
+                   'replaced by the machine-code address gives `laddr` another value than the one the differences were computed from, and '
+                   '`jmpi base + diff` leaves the function')
+    gen = run.tu('gen')
+    n = 0
+    fields = {}
+    # (b) lref data
+    f = gen.func('create_bb_stubs')
+    run.functions_analysed.add(('gen', f.name))
+    stores = [x for x in f.walk() if x['k'] == 'BinaryOperator' and x['op'] == '=' and 'load_addr' in F.src(x['c'][0])]
+    if not stores:
+        raise F.AnalysisBroken('create_bb_stubs: store into lref->load_addr not found')
+
+    def field_of(fn, var):
+        """the bb_version field a local gets its value from: `v = …->FIELD` or the out parameter of get_bb_version (its `->addr`)"""
+        got = set()
+        for x in fn.walk():
+            if x['k'] == 'BinaryOperator' and x['op'] == '=' and F.src(F.strip(x['c'][0])) == var:
+                r = F.strip(x['c'][1])
+                ms = [y for y in F.walk(r) if y['k'] == 'MemberExpr' and 'bb_version' in gen.type(y['c'][0]).s]
+                for y in ms:
+                    got.add(y['n'])
+            if x['k'] == 'CallExpr' and x.get('callee') == 'get_bb_version':
+                for a in F.call_args(x):
+                    a0 = F.strip(a)
+                    if a0['k'] == 'UnaryOperator' and a0['op'] == '&' and F.src(F.strip(a0['c'][0])) == var:
+                        got.add('<out parameter>')
+        if got - {'<out parameter>'}:
+            return got - {'<out parameter>'}
+        return {'addr'} if got else set()
+    names = {y['n'] for y in F.walk(stores[0]['c'][1]) if y['k'] == 'DeclRefExpr' and y.get('dk') == 'local'}
+    fl = set()
+    for v in names:
+        fl |= field_of(f, v)
+    fields['lref data (create_bb_stubs)'] = fl
+    # (c) LADDR
+    g = gen.func('bb_version_generator') if 'bb_version_generator' in gen.funcs else None
+    cands = [h for h in gen.func_list if h.body is not None and any(y['k'] == 'DeclRefExpr' and y['n'] == 'MIR_LADDR' for y in h.walk())
+             and any(y['k'] == 'CallExpr' and y.get('callee') == 'get_bb_version' for y in h.walk())]
+    if not cands:
+        raise F.AnalysisBroken('RF124: the LADDR case of lazy bb generation was not found')
+    g = cands[0]
+    run.functions_analysed.add(('gen', g.name))
+    ifs = [x for x in g.walk() if x['k'] == 'IfStmt' and 'MIR_LADDR' in F.src(x['c'][0]) and len(x['c']) > 2 and x['c'][2] is not None]
+    if not ifs:
+        raise F.AnalysisBroken('RF124: the LADDR branch was not found in %s' % g.name)
+    br = ifs[0]['c'][2] if '!=' in F.src(ifs[0]['c'][0]) else ifs[0]['c'][1]
+    pushes = [x for x in F.walk(br) if x['k'] == 'CallExpr' and (x.get('callee') or '').endswith('push') and 'succ_bb_addrs' in F.src(F.call_args(x)[0])]
+    if not pushes:
+        raise F.AnalysisBroken('RF124: the address handed to the LADDR translation was not found')
+    a1 = F.strip(F.call_args(pushes[0])[1])
+    if a1['k'] == 'MemberExpr':
+        fields['LADDR (%s)' % g.name] = {a1['n']}
+    else:
+        fields['LADDR (%s)' % g.name] = field_of(g, F.src(a1))
+    # writers of the fields
+    writers = {}
+    for h in gen.func_list:
+        if h.body is None or not h.file.startswith('/repo'):
+            continue
+        for x in h.walk():
+            if x['k'] == 'BinaryOperator' and x['op'] == '=':
+                st = [x]
+                # chained assignment a = b->f = c->g = v
+                while st:
+                    y = st.pop()
+                    l = F.strip(y['c'][0])
+                    if l['k'] == 'MemberExpr' and 'bb_version' in gen.type(l['c'][0]).s:
+                        writers.setdefault(l['n'], set()).add(h.name)
+                    r = F.strip(y['c'][1])
+                    if r['k'] == 'BinaryOperator' and r['op'] == '=':
+                        st.append(r)
+    allf = set().union(*fields.values()) if fields else set()
+    same = len(allf) == 1
+    for site, fl in sorted(fields.items()):
+        n += 1
+        fld = sorted(fl)[0] if fl else '?'
+        ws = sorted(writers.get(fld, ()))
+        ok = same and len(fl) == 1 and len(ws) == 1
+        run.ob(rule, (site,), ok, {'site': site, 'field': sorted(fl), 'assigned in': ws})
+        if not ok:
+            fn_ = f if 'lref' in site else g
+            run.violation(rule, fn_, 'label value from a field that changes', 'the label value used for %s comes from bb_version field(s) %s, assigned in %s%s: '
+                          'once a block is generated its `laddr` value is the machine-code address while lref differences were computed from '
+                          'thunk addresses, so `jmpi laddr(L0) + (L1 - L0)` jumps to an address that is not a block (lazy bb gen hangs or '
+                          'crashes, the other interfaces work)' % (site, sorted(fl), ws, '' if same else '; the two sites use different fields'),
+                          line=fn_.line)
+    return n
